@@ -1,6 +1,8 @@
 package props
 
 import (
+	"github.com/jotaen/klog/klog/app"
+	"time"
 	"fmt"
 	"os"
 	"strconv"
@@ -9,6 +11,7 @@ import (
 	"github.com/jotaen/klog/klog/app/cli"
 	"github.com/jotaen/klog/klog/app/cli/util"
 	"verifharness/core"
+	"verifharness/obs"
 	"verifharness/ref"
 )
 
@@ -108,6 +111,17 @@ func runC17(e *core.Env) {
 							n++
 							c17Cell(e, r, file, today, b.minute, rd.flag, rd.cfg, sel, lay, h12, kind)
 						}
+					}
+				}
+			}
+		}
+		if b.minute == 1439 {
+			// a clock that keeps running while the command runs: midnight falls between two readings
+			for lay := 0; lay < c17Layouts; lay++ {
+				for _, kind := range []string{"start", "stop", "switch"} {
+					for _, rd := range []int{0, 5} {
+						n++
+						c17Ticking(e, file, today, lay, kind, rd)
 					}
 				}
 			}
@@ -235,6 +249,73 @@ func c17Cell(e *core.Env, r *core.Rand, file string, today ref.Date, minute, rou
 	if e.WantSample() && written.Shift() != 0 {
 		e.Sample(w)
 	}
+}
+
+// c17Ticking runs a command under a clock that advances by one second with every reading, starting at 23:59:59: the
+// second reading already belongs to the next day. Whatever the command does must be what the model prescribes for ONE
+// of the instants it read - a date taken from one reading and a time from another is neither.
+func c17Ticking(e *core.Env, file string, today ref.Date, layout int, kind string, round int) {
+	text := c17File(layout, today, false, "    ")
+	rec := ref.Recognise(text)
+	if err := os.WriteFile(file, []byte(text), 0644); err != nil {
+		panic(err)
+	}
+	cmd := MCmd{Kind: kind, Round: round}
+	envA := MEnv{Today: today, Minute: 1439, Second: 59, Cpus: 1}
+	envB := MEnv{Today: today.Plus(1), Minute: 0, Second: 0, Cpus: 1}
+	outA, outB := applyModel(rec.Doc, cmd, envA), applyModel(rec.Doc, cmd, envB)
+	if outA.Undecided != "" || outB.Undecided != "" {
+		return
+	}
+	c, derr := cmd.build(file)
+	if derr != "" {
+		return
+	}
+	base := time.Date(today.Y, time.Month(today.M), today.D, 23, 59, 59, 0, time.UTC)
+	ctx, _, err := obs.NewCtx(obs.CtxOpts{ConfigDir: e.Dir + "/cfg", Cpus: 1, Theme: "no_colour", Clock: base})
+	if err != nil {
+		panic("harness: " + err.Error())
+	}
+	ctx.OnNow = func() {
+		if ctx.NowReads > 1 {
+			ctx.Clock = ctx.Clock.Add(time.Second)
+		}
+	}
+	var aerr app.Error
+	pi := core.Guard(func() { aerr = c.Run(ctx) })
+	after := readFile(file)
+	w := map[string]any{"file_before": text, "file_after": after, "command": cmd.String(), "clock": "23:59:59 at the first reading, one second later at every further reading", "clock_readings": ctx.NowReads}
+	if pi != nil {
+		e.Violation("command-panic: "+pi.Site(), fmt.Sprintf("running clock across midnight: `klog %s` panicked: %s", cmd.String(), pi.Value), w)
+		return
+	}
+	e.Count("running_clock_cells", 1)
+	if aerr != nil {
+		if outA.OK && outB.OK {
+			e.Violation("running-clock-across-midnight: "+kind, fmt.Sprintf("`klog %s` failed (%s) although it must succeed both at 23:59:59 and at 0:00:00", cmd.String(), trunc(aerr.Error()+": "+aerr.Details(), 160)), w)
+		} else if after != text {
+			e.Violation("failed-command-changes-file", "running clock across midnight: the command failed but changed the file", w)
+		}
+		return
+	}
+	got, perr := readBack(after)
+	if perr != "" {
+		e.Violation("result-invalid", "running clock across midnight: file does not parse afterwards: "+perr, w)
+		return
+	}
+	var diffs []string
+	for _, o := range []Outcome{outA, outB} {
+		if !o.OK {
+			continue
+		}
+		d := compareWithModel(o, got, cmd)
+		if d == "" {
+			return
+		}
+		diffs = append(diffs, d)
+	}
+	e.Violation("running-clock-across-midnight: "+kind, fmt.Sprintf("`klog %s` with midnight between two clock readings wrote a result that is right for neither instant (23:59:59 of %s: %s; 0:00:00 of the next day: %s)",
+		cmd.String(), today, map[bool]string{true: "differs", false: "must fail"}[outA.OK], map[bool]string{true: "differs", false: "must fail"}[outB.OK])+"\n"+strings.Join(diffs, "\n"), w)
 }
 
 func c17Now(e *core.Env, r *core.Rand, file string, today ref.Date, minute, layout int) {
